@@ -262,8 +262,23 @@ func c05Track(w *simWorld, sn *Snapshot, detachedSet map[string]bool) (out []Vio
 						}
 					}
 				}
+				// recorded finding (C08 refused-request-changed-store sub-p2p unloaded): a {sub} to a p2p topic that is not
+				// loaded writes the requester's rows while the topic loads, before the requested mode is evaluated and
+				// refused: the store changes, the requester is told 4xx and nobody else anything
+				refusedP2P := false
+				if cat == types.TopicCatP2P {
+					for _, oc := range w.clientsOf(c.User.Idx) {
+						for _, sx := range oc.Sents {
+							if sx.Msg != nil && sx.Msg.Sub != nil && sx.Code >= 400 && w.globalName(oc, sx.Msg.Sub.Topic) == tname {
+								refusedP2P = true
+							}
+						}
+					}
+				}
 				if restored {
 					key = "tracked-permissions-diverged subscription-restored-by-partner"
+				} else if refusedP2P {
+					key = "tracked-permissions-diverged after-refused-p2p-sub"
 				} else if raced {
 					key = "tracked-permissions-diverged attach-raced-notification"
 				} else if a.NoBase {
